@@ -44,6 +44,7 @@ type shardPlan struct {
 	ID     uint64   `json:"id"`
 	Owners []uint64 `json:"owners"`
 	Group  int      `json:"group"`
+	RP     int      `json:"rp,omitempty"` // retention policy 0 ("rp") or 1 ("rp1")
 	Times  []int64  `json:"times"` // timestamps = row ids (unique in the world)
 }
 
@@ -67,9 +68,53 @@ type queryDesc struct {
 	Down  []uint64  `json:"down"`
 	Fault faultPlan `json:"fault"`
 	Ops   []string  `json:"ops"` // "ci" | "fd" | "ic"
+	// sources of the statement (default: one measurement "m" of "rp"); OpSrc[i] = index of the
+	// source whose measurement operation i addresses (default 0)
+	Sources []srcDesc `json:"sources,omitempty"`
+	OpSrc   []int     `json:"op_src,omitempty"`
 	// when non-zero, math/rand is seeded with it right before MapShards (designed cases that
 	// need a particular random owner choice try a few seeds)
 	RandSeed int64 `json:"rand_seed,omitempty"`
+}
+
+type srcDesc struct {
+	RP   int  `json:"rp"`            // 0 | 1
+	Meas int  `json:"meas"`          // measurement "m", "m1", "m2" (identical data)
+	Sub  bool `json:"sub,omitempty"` // wrapped in a subquery
+}
+
+func rpName(i int) string {
+	if i == 0 {
+		return "rp"
+	}
+	return fmt.Sprintf("rp%d", i)
+}
+
+func measName(i int) string {
+	if i == 0 {
+		return "m"
+	}
+	return fmt.Sprintf("m%d", i)
+}
+
+const nMeas = 3
+
+func (d queryDesc) sources() []srcDesc {
+	if len(d.Sources) == 0 {
+		return []srcDesc{{}}
+	}
+	return d.Sources
+}
+
+func (d queryDesc) opSrc(i int) int {
+	if i < len(d.OpSrc) {
+		return d.OpSrc[i]
+	}
+	return 0
+}
+
+func measurementOf(sd srcDesc) *influxql.Measurement {
+	return &influxql.Measurement{Database: "db", RetentionPolicy: rpName(sd.RP), Name: measName(sd.Meas)}
 }
 
 type respDesc struct {
@@ -533,7 +578,8 @@ type clusterMeta struct {
 	down     map[uint64]bool
 	deadAddr string
 	mu       sync.Mutex
-	returned []meta.ShardInfo
+	returned map[string][]meta.ShardInfo
+	nmeta    int
 }
 
 func (m *clusterMeta) NodeID() uint64 { return m.local }
@@ -567,10 +613,14 @@ func (m *clusterMeta) ShardGroupsByTimeRange(database, policy string, min, max t
 	gs, err := m.data.ShardGroupsByTimeRange(database, policy, min, max)
 	if err == nil {
 		m.mu.Lock()
-		m.returned = nil
-		for _, g := range gs {
-			m.returned = append(m.returned, g.Shards...)
+		if m.returned == nil {
+			m.returned = map[string][]meta.ShardInfo{}
 		}
+		m.returned[policy] = nil
+		for _, g := range gs {
+			m.returned[policy] = append(m.returned[policy], g.Shards...)
+		}
+		m.nmeta++
 		m.mu.Unlock()
 	}
 	return gs, err
@@ -599,17 +649,20 @@ func openStore(dir string) *tsdb.Store {
 }
 
 func loadShard(st *tsdb.Store, sp shardPlan) {
-	if err := st.CreateShard("db", "rp", sp.ID, true); err != nil {
+	if err := st.CreateShard("db", rpName(sp.RP), sp.ID, true); err != nil {
 		panic(err)
 	}
 	// a sentinel point before every query range: the measurement exists in every shard
 	// (IteratorCost counts the shard) even when a shard has no row in range
 	st0 := -int64(1000 + sp.ID)
-	pts := []models.Point{models.MustNewPoint("m", models.NewTags(nil),
-		models.Fields{"v": float64(st0), fmt.Sprintf("f%d", sp.ID): float64(1)}, time.Unix(0, st0))}
-	for _, t := range sp.Times {
-		pts = append(pts, models.MustNewPoint("m", models.NewTags(nil),
-			models.Fields{"v": float64(t), fmt.Sprintf("f%d", sp.ID): float64(1)}, time.Unix(0, t)))
+	var pts []models.Point
+	for mi := 0; mi < nMeas; mi++ { // every measurement holds the same data
+		pts = append(pts, models.MustNewPoint(measName(mi), models.NewTags(nil),
+			models.Fields{"v": float64(st0), fmt.Sprintf("f%d", sp.ID): float64(1)}, time.Unix(0, st0)))
+		for _, t := range sp.Times {
+			pts = append(pts, models.MustNewPoint(measName(mi), models.NewTags(nil),
+				models.Fields{"v": float64(t), fmt.Sprintf("f%d", sp.ID): float64(1)}, time.Unix(0, t)))
+		}
 	}
 	if err := st.WriteToShard(sp.ID, pts); err != nil {
 		panic(err)
@@ -624,19 +677,32 @@ func buildWorld(d worldDesc, deadAddr string) *world {
 	}
 	w := &world{desc: d, key: string(b), dir: dir, nodes: map[uint64]*node{}, deadAddr: deadAddr}
 	// metadata: a real meta.Data with hand-placed shard groups (arbitrary ownership layouts)
-	groups := make([]meta.ShardGroupInfo, d.Groups)
-	for g := range groups {
-		groups[g] = meta.ShardGroupInfo{ID: uint64(g + 1), StartTime: time.Unix(0, int64(g)*1000), EndTime: time.Unix(0, int64(g+1)*1000)}
-	}
-	for _, sp := range d.Shards {
-		si := meta.ShardInfo{ID: sp.ID}
-		for _, o := range sp.Owners {
-			si.Owners = append(si.Owners, meta.ShardOwner{NodeID: o})
+	var rps []meta.RetentionPolicyInfo
+	for rp := 0; rp < 2; rp++ {
+		groups := make([]meta.ShardGroupInfo, d.Groups)
+		for g := range groups {
+			groups[g] = meta.ShardGroupInfo{ID: uint64(rp*100 + g + 1), StartTime: time.Unix(0, int64(g)*1000), EndTime: time.Unix(0, int64(g+1)*1000)}
 		}
-		groups[sp.Group].Shards = append(groups[sp.Group].Shards, si)
+		for _, sp := range d.Shards {
+			if sp.RP != rp {
+				continue
+			}
+			si := meta.ShardInfo{ID: sp.ID}
+			for _, o := range sp.Owners {
+				si.Owners = append(si.Owners, meta.ShardOwner{NodeID: o})
+			}
+			groups[sp.Group].Shards = append(groups[sp.Group].Shards, si)
+		}
+		// a shard group without shards does not exist in real metadata
+		var nonEmpty []meta.ShardGroupInfo
+		for _, g := range groups {
+			if len(g.Shards) > 0 {
+				nonEmpty = append(nonEmpty, g)
+			}
+		}
+		rps = append(rps, meta.RetentionPolicyInfo{Name: rpName(rp), ReplicaN: 1, ShardGroupDuration: time.Hour, ShardGroups: nonEmpty})
 	}
-	w.data = &meta.Data{Databases: []meta.DatabaseInfo{{Name: "db", DefaultRetentionPolicy: "rp",
-		RetentionPolicies: []meta.RetentionPolicyInfo{{Name: "rp", ReplicaN: 1, ShardGroupDuration: time.Hour, ShardGroups: groups}}}}}
+	w.data = &meta.Data{Databases: []meta.DatabaseInfo{{Name: "db", DefaultRetentionPolicy: "rp", RetentionPolicies: rps}}}
 	// reference: one store holding every shard once
 	w.ref = openStore(dir + "/ref")
 	for _, sp := range d.Shards {
@@ -786,7 +852,7 @@ func drain(itr query.Iterator) (rows []uint64, err error) {
 	return rows, nil
 }
 
-func runOp(sg query.ShardGroup, op string) (obs opObs) {
+func runOp(sg query.ShardGroup, measurement *influxql.Measurement, op string) (obs opObs) {
 	defer func() {
 		if e := recover(); e != nil {
 			obs = opObs{Err: true, Msg: fmt.Sprintf("panic: %v", e)}
@@ -880,8 +946,24 @@ func validQuery(d queryDesc) bool {
 			return false
 		}
 	}
-	for _, op := range d.Ops {
+	for i, op := range d.Ops {
 		if op != "ci" && op != "fd" && op != "ic" {
+			return false
+		}
+		if d.opSrc(i) < 0 || d.opSrc(i) >= len(d.sources()) {
+			return false
+		}
+	}
+	if len(d.Sources) > 4 || len(d.OpSrc) > len(d.Ops) {
+		return false
+	}
+	for _, sd := range d.Sources {
+		if sd.RP < 0 || sd.RP > 1 || sd.Meas < 0 || sd.Meas >= nMeas {
+			return false
+		}
+	}
+	for _, sp := range w.Shards {
+		if sp.RP < 0 || sp.RP > 1 {
 			return false
 		}
 	}
@@ -912,7 +994,16 @@ func runQuery(o *hx.Out, d queryDesc, origin string) {
 	}
 	mapper := &coordinator.ClusterShardMapper{MetaClient: mc, TSDBStore: localStore{st: localSt, got: &localGot}, MetaExecutor: me}
 	tr := influxql.TimeRange{Min: time.Unix(0, d.Tmin).UTC(), Max: time.Unix(0, d.Tmax).UTC()}
-	sources := influxql.Sources{measurement}
+	srcs := d.sources()
+	var sources influxql.Sources
+	for _, sd := range srcs {
+		m := measurementOf(sd)
+		if sd.Sub {
+			sources = append(sources, &influxql.SubQuery{Statement: &influxql.SelectStatement{Sources: influxql.Sources{m}}})
+		} else {
+			sources = append(sources, m)
+		}
+	}
 
 	// reference: the same operations on one store holding the union, through LocalShardMapper
 	refMapper := &coordinator.LocalShardMapper{MetaClient: mc, TSDBStore: w.ref}
@@ -921,8 +1012,8 @@ func runQuery(o *hx.Out, d queryDesc, origin string) {
 		panic(err)
 	}
 	var refs []opObs
-	for _, op := range d.Ops {
-		r := runOp(refSg, op)
+	for i, op := range d.Ops {
+		r := runOp(refSg, measurementOf(srcs[d.opSrc(i)]), op)
 		if r.Err {
 			panic("reference failed: " + r.Msg)
 		}
@@ -947,102 +1038,177 @@ func runQuery(o *hx.Out, d queryDesc, origin string) {
 		panic("MapShards failed: " + mapErr.Error())
 	}
 	mc.mu.Lock()
-	view := append([]meta.ShardInfo(nil), mc.returned...)
+	views := map[int][]meta.ShardInfo{}
+	for rp := 0; rp < 2; rp++ {
+		if v, ok := mc.returned[rpName(rp)]; ok {
+			views[rp] = append([]meta.ShardInfo(nil), v...)
+		}
+	}
 	mc.mu.Unlock()
 
-	// observed mapping
+	// observed mapping per source key
 	type ent struct {
-		node uint64
-		ids  []uint64
+		Node uint64   `json:"node"`
+		IDs  []uint64 `json:"ids"`
 	}
-	var omap []ent
-	for _, ids := range localGot {
-		omap = append(omap, ent{d.Local, ids})
+	type srcMap struct {
+		RP     int      `json:"rp"`
+		Local  []uint64 `json:"local"`
+		Remote []ent    `json:"remote"`
 	}
-	for _, g := range coordinator.VerifRemoteGroups(sg) {
-		omap = append(omap, ent{g.NodeID, g.ShardIDs})
+	var omap []srcMap
+	nremote := 0
+	for _, vm := range coordinator.VerifMapping(sg) {
+		sm := srcMap{RP: -1, Local: []uint64{}, Remote: []ent{}}
+		for rp := 0; rp < 2; rp++ {
+			if vm.RetentionPolicy == rpName(rp) {
+				sm.RP = rp
+			}
+		}
+		sm.Local = append(sm.Local, vm.Local...)
+		sort.Slice(sm.Local, func(i, j int) bool { return sm.Local[i] < sm.Local[j] })
+		for _, g := range vm.Remote {
+			sm.Remote = append(sm.Remote, ent{g.NodeID, g.ShardIDs})
+			nremote++
+		}
+		omap = append(omap, sm)
 	}
-	sort.SliceStable(omap, func(i, j int) bool { return omap[i].node < omap[j].node })
 
+	// operations, with the segment of the request log each one produced
 	var obs []opObs
-	for _, op := range d.Ops {
-		obs = append(obs, runOp(sg, op))
+	var segs [][]callRec
+	for i, op := range d.Ops {
+		cs.mu.Lock()
+		n0 := len(cs.calls)
+		cs.mu.Unlock()
+		obs = append(obs, runOp(sg, measurementOf(srcs[d.opSrc(i)]), op))
+		cs.mu.Lock()
+		seg := append([]callRec(nil), cs.calls[n0:]...)
+		cs.mu.Unlock()
+		sort.SliceStable(seg, func(i, j int) bool {
+			if seg[i].Node != seg[j].Node {
+				return seg[i].Node < seg[j].Node
+			}
+			ki, kj := keyOf(seg[i].IDs), keyOf(seg[j].IDs)
+			if ki != kj {
+				return ki < kj
+			}
+			return seg[i].Idx < seg[j].Idx
+		})
+		segs = append(segs, seg)
 	}
 	sg.Close()
 
 	// ---- build the Coq case
-	var shardsC, dataC []string
-	viewIDs := []uint64{}
-	rowsObs := map[string][]uint64{}
 	plan := map[uint64]shardPlan{}
 	for _, sp := range d.World.Shards {
 		plan[sp.ID] = sp
 	}
-	nrows := 0
-	for _, si := range view {
-		var owners []uint64
-		for _, ow := range si.Owners {
-			owners = append(owners, ow.NodeID)
+	var viewsC, dataC []string
+	viewIDs := []uint64{}
+	rowsObs := map[string][]uint64{}
+	for rp := 0; rp < 2; rp++ {
+		view, ok := views[rp]
+		if !ok {
+			continue
 		}
-		shardsC = append(shardsC, fmt.Sprintf("(%d, %s)", si.ID, hx.CoqNList(owners)))
-		rows := []uint64{}
-		for _, t := range plan[si.ID].Times {
-			if t >= d.Tmin && t <= d.Tmax {
-				rows = append(rows, uint64(t))
+		var shardsC []string
+		for _, si := range view {
+			var owners []uint64
+			for _, ow := range si.Owners {
+				owners = append(owners, ow.NodeID)
 			}
+			shardsC = append(shardsC, fmt.Sprintf("(%d, %s)", si.ID, hx.CoqNList(owners)))
+			rows := []uint64{}
+			for _, t := range plan[si.ID].Times {
+				if t >= d.Tmin && t <= d.Tmax {
+					rows = append(rows, uint64(t))
+				}
+			}
+			viewIDs = append(viewIDs, si.ID)
+			rowsObs[strconv.FormatUint(si.ID, 10)] = rows
+			dataC = append(dataC, fmt.Sprintf("(%d, %s)", si.ID, hx.CoqNList(rows)))
 		}
-		nrows += len(rows)
-		viewIDs = append(viewIDs, si.ID)
-		rowsObs[strconv.FormatUint(si.ID, 10)] = rows
-		dataC = append(dataC, fmt.Sprintf("(%d, %s)", si.ID, hx.CoqNList(rows)))
+		viewsC = append(viewsC, fmt.Sprintf("(%d, %s)", rp, hx.CoqList(shardsC)))
 	}
-	cs.mu.Lock()
-	calls := append([]callRec(nil), cs.calls...)
-	cs.mu.Unlock()
-	sort.SliceStable(calls, func(i, j int) bool {
-		if calls[i].Node != calls[j].Node {
-			return calls[i].Node < calls[j].Node
-		}
-		ki, kj := keyOf(calls[i].IDs), keyOf(calls[j].IDs)
-		if ki != kj {
-			return ki < kj
-		}
-		return calls[i].Idx < calls[j].Idx
-	})
-	var behC, logC, opsC, refsC, omapC, oresC []string
-	nfault := 0
+	var behC, srcsC, opsC, refsC, omapC, oresC, ologsC []string
+	nfault, ncalls := 0, 0
 	kinds := map[string]bool{}
-	for _, c := range calls {
-		if c.Out.Kind != "serve" {
-			behC = append(behC, fmt.Sprintf("(%s, %d, %s)", coqKey(c.Node, c.IDs), c.Idx, c.Out.coq()))
-			nfault++
-			kinds[c.Out.Kind] = true
+	type callObs struct {
+		Node uint64   `json:"node"`
+		IDs  []uint64 `json:"ids"`
+		Idx  int      `json:"idx"`
+		Out  string   `json:"out"`
+		Req  string   `json:"req"`
+		Op   int      `json:"op"`
+	}
+	callsObs := []callObs{}
+	for i, seg := range segs {
+		var logC []string
+		for _, c := range seg {
+			if c.Out.Kind != "serve" {
+				behC = append(behC, fmt.Sprintf("(%s, %d, %s)", coqKey(c.Node, c.IDs), c.Idx, c.Out.coq()))
+				nfault++
+				kinds[c.Out.Kind] = true
+			}
+			ncalls++
+			logC = append(logC, coqKey(c.Node, c.IDs))
+			callsObs = append(callsObs, callObs{c.Node, c.IDs, c.Idx, c.Out.coq(),
+				map[byte]string{typCreateIter: "ci", typIterCost: "ic", typFieldDims: "fd", typReadFilter: "rf", typReadGroup: "rg"}[c.Typ], i})
 		}
-		logC = append(logC, coqKey(c.Node, c.IDs))
+		ologsC = append(ologsC, hx.CoqList(logC))
+	}
+	for _, sd := range srcs {
+		srcsC = append(srcsC, strconv.Itoa(sd.RP))
 	}
 	for i, op := range d.Ops {
-		opsC = append(opsC, coqOp(op))
+		opsC = append(opsC, fmt.Sprintf("(%d, %s)", srcs[d.opSrc(i)].RP, coqOp(op)))
 		refsC = append(refsC, hx.CoqNList(refs[i].Vals))
 		oresC = append(oresC, obs[i].coq())
 	}
-	for _, e := range omap {
-		omapC = append(omapC, coqKey(e.node, e.ids))
+	for _, sm := range omap {
+		var rem []string
+		for _, e := range sm.Remote {
+			rem = append(rem, coqKey(e.Node, e.IDs))
+		}
+		omapC = append(omapC, fmt.Sprintf("(%d, (%s, %s))", sm.RP, hx.CoqNList(sm.Local), hx.CoqList(rem)))
 	}
-	coq := fmt.Sprintf("CQuery %d %s %s %s %s %s %s %s %s %s", d.Local, hx.CoqList(shardsC), hx.CoqList(dataC),
-		hx.CoqNList(d.Down), hx.CoqList(behC), hx.CoqList(opsC), hx.CoqList(refsC), hx.CoqList(omapC), hx.CoqList(oresC), hx.CoqList(logC))
+	coq := fmt.Sprintf("CQuery %d %s %s %s %s %s %s %s %s %s %s", d.Local, hx.CoqList(viewsC), hx.CoqList(dataC),
+		hx.CoqNList(d.Down), hx.CoqList(behC), hx.CoqList(srcsC), hx.CoqList(opsC), hx.CoqList(refsC),
+		hx.CoqList(omapC), hx.CoqList(oresC), hx.CoqList(ologsC))
 
 	// ---- evidence bookkeeping
-	nerr := 0
-	for _, r := range obs {
-		if r.Err {
-			nerr++
-		}
-	}
 	o.Count(fmt.Sprintf("query:nodes=%d", d.World.N))
-	o.Count(fmt.Sprintf("query:shards_in_range=%d", len(view)))
+	o.Count(fmt.Sprintf("query:sources=%d", len(srcs)))
+	keysSeen := map[int]bool{}
+	sameKey, sub := false, false
+	for _, sd := range srcs {
+		sameKey = sameKey || keysSeen[sd.RP]
+		keysSeen[sd.RP] = true
+		sub = sub || sd.Sub
+	}
+	if sameKey {
+		o.Count("query:repeated_db_rp=yes")
+	}
+	if sub {
+		o.Count("query:subquery_source=yes")
+	}
+	nlocal := 0
+	for _, sm := range omap {
+		nlocal += len(sm.Local)
+	}
+	switch {
+	case nlocal == 0:
+		o.Count("query:coordinator_owns=none")
+	case nremote == 0:
+		o.Count("query:coordinator_owns=all")
+	default:
+		o.Count("query:coordinator_owns=some")
+	}
+	o.Count(fmt.Sprintf("query:shards_in_range=%s", bucket(len(viewIDs))))
 	o.Count(fmt.Sprintf("query:down=%d", len(d.Down)))
-	o.Count(fmt.Sprintf("query:remote_groups=%d", len(omap)-len(localGot)))
-	o.Count(fmt.Sprintf("query:requests=%s", bucket(len(calls))))
+	o.Count(fmt.Sprintf("query:remote_groups=%d", nremote))
+	o.Count(fmt.Sprintf("query:requests=%s", bucket(ncalls)))
 	o.Count(fmt.Sprintf("query:injected_faults=%s", bucket(nfault)))
 	for k := range kinds {
 		o.Count("query:fault_kind=" + k)
@@ -1054,25 +1220,10 @@ func runQuery(o *hx.Out, d queryDesc, origin string) {
 			o.Count("query:" + op + "=ok")
 		}
 	}
-	type callObs struct {
-		Node uint64   `json:"node"`
-		IDs  []uint64 `json:"ids"`
-		Idx  int      `json:"idx"`
-		Out  string   `json:"out"`
-		Req  string   `json:"req"`
-	}
-	var callsObs []callObs
-	for _, c := range calls {
-		callsObs = append(callsObs, callObs{c.Node, c.IDs, c.Idx, c.Out.coq(), map[byte]string{typCreateIter: "ci", typIterCost: "ic", typFieldDims: "fd", typReadFilter: "rf", typReadGroup: "rg"}[c.Typ]})
-	}
-	var omapObs [][]interface{}
-	for _, e := range omap {
-		omapObs = append(omapObs, []interface{}{e.node, e.ids})
-	}
 	sigb, _ := json.Marshal(d)
 	o.Emit(hx.Case{Kind: "query", Coq: coq, Desc: d,
-		Obs:        map[string]interface{}{"results": obs, "reference": refs, "mapping": omapObs, "served": callsObs, "view": viewIDs, "rows": rowsObs},
-		Nontrivial: len(view) > 0 && len(omap) > len(localGot),
+		Obs:        map[string]interface{}{"results": obs, "reference": refs, "mapping": omap, "served": callsObs, "view": viewIDs, "rows": rowsObs},
+		Nontrivial: len(viewIDs) > 0 && nremote > 0,
 		Sig:        "q:" + string(sigb), Origin: origin})
 }
 
@@ -1166,10 +1317,14 @@ func genWorld(r *hx.Rand, tier string) worldDesc {
 	id := uint64(1)
 	style := r.Intn(3) // 0: ring placement with a replication factor, 1: arbitrary owner sets, 2: mixed
 	repl := 1 + r.Intn(n)
+	twoRP := r.Chance(40) // some shards live in a second retention policy
 	for g := 0; g < d.Groups; g++ {
 		ns := 1 + r.Intn(3)
 		for k := 0; k < ns; k++ {
 			sp := shardPlan{ID: id, Group: g}
+			if twoRP && r.Chance(35) {
+				sp.RP = 1
+			}
 			switch {
 			case style == 0 || (style == 2 && r.Bool()):
 				start := r.Intn(n)
@@ -1200,7 +1355,23 @@ func genWorld(r *hx.Rand, tier string) worldDesc {
 
 func genQuery(r *hx.Rand, w worldDesc, cleanOK bool) queryDesc {
 	d := queryDesc{World: w, Local: uint64(1 + r.Intn(w.N))}
-	for try := 0; try < 3; try++ { // prefer coordinators that need some remote shard
+	ownsNone := []uint64{}
+	for n := 1; n <= w.N; n++ {
+		owns := false
+		for _, sp := range w.Shards {
+			for _, o := range sp.Owners {
+				owns = owns || o == uint64(n)
+			}
+		}
+		if !owns {
+			ownsNone = append(ownsNone, uint64(n))
+		}
+	}
+	mode := r.Intn(10)
+	if mode < 3 && len(ownsNone) > 0 { // a coordinator that owns no shard at all
+		d.Local = ownsNone[r.Intn(len(ownsNone))]
+	}
+	for try := 0; try < 3 && mode >= 6; try++ { // prefer coordinators that need some remote shard
 		remote := false
 		for _, sp := range w.Shards {
 			own := false
@@ -1241,6 +1412,16 @@ func genQuery(r *hx.Rand, w worldDesc, cleanOK bool) queryDesc {
 	default:
 		d.Fault.Prob = 80
 	}
+	if r.Chance(55) { // multi-source statement: FROM a, b[, c]; subqueries; two retention policies
+		ns := 2 + r.Intn(2)
+		for i := 0; i < ns; i++ {
+			sd := srcDesc{Meas: r.Intn(nMeas), Sub: r.Chance(20)}
+			if r.Chance(30) {
+				sd.RP = 1
+			}
+			d.Sources = append(d.Sources, sd)
+		}
+	}
 	all := []string{"ci", "fd", "ic"}
 	nops := 1 + r.Intn(3)
 	for i := 0; i < nops; i++ {
@@ -1248,6 +1429,9 @@ func genQuery(r *hx.Rand, w worldDesc, cleanOK bool) queryDesc {
 			d.Ops = append(d.Ops, "ci")
 		} else {
 			d.Ops = append(d.Ops, all[r.Intn(3)])
+		}
+		if len(d.Sources) > 0 {
+			d.OpSrc = append(d.OpSrc, r.Intn(len(d.Sources)))
 		}
 	}
 	return d
@@ -1275,6 +1459,40 @@ func designed(o *hx.Out) {
 				}
 			}
 		}
+	}
+}
+
+// statements with several sources, coordinated by nodes that own none / some / all of the
+// shards: the same db/rp twice (FROM m, m1), with a subquery, and two retention policies.
+func designedMultiSource(o *hx.Out) {
+	w := worldDesc{N: 3, Groups: 1, Shards: []shardPlan{
+		{ID: 10, Owners: []uint64{2}, Group: 0, Times: []int64{10, 11}},
+		{ID: 11, Owners: []uint64{3, 2}, Group: 0, Times: []int64{120}},
+		{ID: 20, Owners: []uint64{3}, Group: 0, RP: 1, Times: []int64{230, 231}}}}
+	srcSets := [][]srcDesc{
+		{{Meas: 0}, {Meas: 1}},
+		{{Meas: 0}, {Meas: 1}, {Meas: 2}},
+		{{Meas: 0, Sub: true}, {Meas: 1}},
+		{{Meas: 0}, {RP: 1, Meas: 0}},
+		{{RP: 1, Meas: 1}, {Meas: 0}, {Meas: 2, Sub: true}},
+	}
+	for local := uint64(1); local <= 3; local++ { // node 1 owns nothing, 2 some, 3 some
+		for _, ss := range srcSets {
+			for _, ops := range [][]string{{"ci", "ci"}, {"ic", "fd"}} {
+				for _, prob := range []int{0, 40} {
+					runQuery(o, queryDesc{World: w, Local: local, Tmin: 0, Tmax: 999, Down: []uint64{},
+						Fault: faultPlan{Seed: 7 + local, Prob: prob}, Ops: ops, Sources: ss, OpSrc: []int{0, len(ss) - 1}}, "designed")
+				}
+			}
+		}
+	}
+	// a coordinator that owns every shard of the source: all local, re-mapped per source
+	wAll := worldDesc{N: 2, Groups: 1, Shards: []shardPlan{
+		{ID: 1, Owners: []uint64{1, 2}, Group: 0, Times: []int64{5}},
+		{ID: 2, Owners: []uint64{1}, Group: 0, Times: []int64{105, 106}}}}
+	for local := uint64(1); local <= 2; local++ {
+		runQuery(o, queryDesc{World: wAll, Local: local, Tmin: 0, Tmax: 999, Down: []uint64{}, Fault: faultPlan{Seed: 3},
+			Ops: []string{"ci", "ic", "fd"}, Sources: []srcDesc{{Meas: 0}, {Meas: 1}, {RP: 1, Meas: 0}}, OpSrc: []int{0, 1, 2}}, "designed")
 	}
 }
 
@@ -1352,6 +1570,7 @@ func main() {
 	r := hx.NewRand(f.Seed)
 	designed(o)
 	designedPartialRound(o)
+	designedMultiSource(o)
 	perWorld := 40
 	if f.Tier == "thorough" {
 		perWorld = 120
